@@ -579,11 +579,23 @@ func c17Handler(run *mon.Run, rng *mon.Rand, thorough bool) {
 				// the documented leaf commits the address strings as given; the same account in bech32's all-upper-case spelling
 				ws[i].To = strings.ToUpper(user.String())
 			}
+			if i == 2 {
+				// the leaf commits a full unsigned 64-bit amount
+				ws[i].Amount = []uint64{1<<63 - 1, 1 << 63, 1<<64 - 1}[t%3]
+				big := sdk.NewCoin("uinit", math.NewIntFromUint64(ws[i].Amount))
+				l1.Fund(user.Addr, big)
+				if r := l1.Deliver(ophosttypes.NewMsgInitiateTokenDeposit(user.String(), 1, "l2addr", big, nil)); r.Class != sim.OK {
+					panic("deposit failed: " + r.ErrString())
+				}
+				ws[i].Amount, big = ws[i].Amount, big
+			}
 		}
 		// fund escrow through a real deposit
 		total := uint64(0)
-		for _, w := range ws {
-			total += w.Amount
+		for i, w := range ws {
+			if i != 2 {
+				total += w.Amount // leaf 2 brought its own deposit
+			}
 		}
 		if r := l1.Deliver(ophosttypes.NewMsgInitiateTokenDeposit(user.String(), 1, "l2addr", sdk.NewCoin("uinit", math.NewIntFromUint64(total)), nil)); r.Class != sim.OK {
 			panic("deposit failed: " + r.ErrString())
